@@ -262,6 +262,12 @@ class CoordinateComponent(Component):
             if view is None:
                 view = Ellipsis
 
+            # A bare array (boolean mask or integer index array) is a single
+            # index and not a sequence of per-dimension items, so we can't
+            # optimize and just index the full result
+            if isinstance(view, np.ndarray):
+                return self._calculate()[view]
+
             # If the view is a tuple or list of arrays, we should actually just
             # convert these straight to world coordinates since the indices
             # of the pixel coordinates are the pixel coordinates themselves.
